@@ -1213,5 +1213,12 @@ def count_nonzero(a):
     return sum(_a(a) != 0)
 
 
+# exported scalar types (must be real classes: the code under analysis uses them in isinstance())
+for _n, _t in nd.SCALAR_TYPES.items():
+    globals()[_n] = _t
+intp = int_ = nd.SCALAR_TYPES["int64"]
+float_ = double = nd.SCALAR_TYPES["float64"]
+
+
 def __getattr__(name):
     raise ShimUnsupported(f"numpy.{name} is not modelled")
